@@ -69,6 +69,7 @@ def short_fn(fn):
 def first_lib_frame(lines, start):
     """first frame of the first stack after line `start` that is SymEngine code"""
     seen_stack = False
+    fallback = None
     for ln in lines[start:]:
         m = FRAME.match(ln) or TFRAME.match(ln)
         if m:
@@ -76,11 +77,16 @@ def first_lib_frame(lines, start):
             path = m.group(3)
             if '/symengine/' in path and '/verif/' not in path:
                 where = 'cereal' if '/cereal/' in path else ''
-                return short_fn(m.group(2)) + ('' if not where else '[cereal]')
+                name = short_fn(m.group(2)) + ('' if not where else '[cereal]')
+                # prefer the first frame that is not smart-pointer plumbing
+                if path.endswith('symengine_rcp.h') or path.endswith('/basic-inl.h'):
+                    fallback = fallback or name
+                    continue
+                return name
         elif seen_stack and not (FRAME2.match(ln)):
             if ln.strip() == '':
                 break
-    return '?'
+    return fallback or '?'
 
 
 def classify_death(returncode, stderr_text, timed_out=False):
@@ -250,6 +256,12 @@ class Worker(threading.Thread):
         self.errf.close()
 
     def run(self):
+        try:
+            self.run_inner()
+        except Exception as e:  # noqa
+            self.pool.worker_errors.append(repr(e))
+
+    def run_inner(self):
         pool = self.pool
         recycle = pool.cfg.get('recycle_runs', 0)
         self.start_proc()
@@ -323,7 +335,8 @@ class Pool:
         self.wall_cap = wall_cap
         self.capped = False
         self.nworkers = nworkers
-        self.stop_after_sigs = cfg.get('stop_after_violations', 40)
+        self.stop_after_sigs = cfg.get('stop_after_violations', 12)
+        self.worker_errors = []
 
     def next_chunk(self):
         with self.lock:
@@ -507,6 +520,9 @@ def main(argv):
         pool = Pool(cfg, tier, seed, nruns, nworkers, tcfg.get('chunk', 20), tcfg.get('wall_cap', 900), binary)
         pool.run()
         capped = capped or pool.capped
+        if pool.worker_errors:
+            log('MACHINERY-FAILURE: worker thread error(s): %s' % pool.worker_errors[:3])
+            return 2
         for r, x in pool.results.items():
             all_results[(binary, r)] = x
         for r, v in pool.violations.items():
@@ -515,6 +531,9 @@ def main(argv):
         per_binary.append((binary, len(pool.results), time.time() - pool.t0))
     run_wall = time.time() - t0
     counters, states, steps, events, _ = merge_counters(summaries)
+    if not all_results:
+        log('MACHINERY-FAILURE: no run was executed')
+        return 2
 
     if args.dump_hashes:
         with open(args.dump_hashes, 'w') as f:
